@@ -1,6 +1,10 @@
 package gen
 
-import "pgregory.net/rapid"
+import (
+	"google.golang.org/protobuf/proto"
+	"google.golang.org/protobuf/reflect/protoreflect"
+	"pgregory.net/rapid"
+)
 
 func mix64(x uint64) uint64 {
 	x += 0x9e3779b97f4a7c15
@@ -26,3 +30,7 @@ func Pct(t *rapid.T, p int, label string) bool { return Uniform(t, 100, label) <
 
 // Pick chooses an element uniformly.
 func Pick[T any](t *rapid.T, xs []T, label string) T { return xs[Uniform(t, len(xs), label)] }
+
+func protoMarshalDet(m protoreflect.Message) ([]byte, error) {
+	return proto.MarshalOptions{Deterministic: true}.Marshal(m.Interface())
+}
